@@ -847,7 +847,124 @@ func genC11(repo string) (string, error) {
 	// segment.GetDataFamilies: family range from CalcFamilyTime of the query start/end
 	sgc := c11CallSeq(FindFunc(sg, "segment", "GetDataFamilies"))
 	flag("fixMonthFamilyTime", has(sgc, "calc.CalcFamilyTime") && !has(sgc, "calc.CalcFamilyStartTime"))
+	// ---- round 12: flow.DataLoadContext.Grouping / IterateLowSeriesIDs (query series -> storage
+	// positions), statement by statement
+	_, fcf, err := ParseFile(repo, "flow/context.go")
+	if err != nil {
+		return "", err
+	}
+	var itStmts, grStmts []string
+	if fd := FindFunc(fcf, "DataLoadContext", "IterateLowSeriesIDs"); fd != nil && fd.Body != nil {
+		itStmts = c11FlatStmts(fd.Body.List)
+	}
+	if fd := FindFunc(fcf, "DataLoadContext", "Grouping"); fd != nil && fd.Body != nil {
+		grStmts = c11FlatStmts(fd.Body.List)
+	}
+	sb.WriteString("def iterateLowSeriesIDsStmts : List String := " + LeanStrList(itStmts) + "\n")
+	sb.WriteString("def dataLoadGroupingStmts : List String := " + LeanStrList(grStmts) + "\n")
+	// the callers: which position the callback's second argument indexes
+	var itUses []string
+	for _, src := range [][3]string{
+		{"tsdb/memdb/time_series_index.go", "timeSeriesIndex", "Load"},
+		{"tsdb/tblstore/metricsdata/metric_data_loader.go", "metricLoader", "Load"},
+	} {
+		_, f, err := ParseFile(repo, src[0])
+		if err != nil {
+			return "", err
+		}
+		if fd := FindFunc(f, src[1], src[2]); fd != nil && fd.Body != nil {
+			ast.Inspect(fd.Body, func(n ast.Node) bool {
+				if ix, ok := n.(*ast.IndexExpr); ok && strings.Contains(c11Text(ix.Index), "seriesIdxFromStorage") {
+					itUses = append(itUses, src[1]+"."+src[2]+": "+c11OneLine(c11Text(ix)))
+				}
+				if ce, ok := n.(*ast.CallExpr); ok && len(ce.Args) > 0 && c11Text(ce.Args[0]) == "seriesIdxFromStorage" {
+					itUses = append(itUses, src[1]+"."+src[2]+": "+c11OneLine(c11Text(ce)))
+				}
+				return true
+			})
+		}
+	}
+	sb.WriteString("def iterateStoragePositionUses : List String := " + LeanStrList(itUses) + "\n")
+	// ---- round 12: a released write buffer still hands out its pages (a query that picked the memory
+	// database before a flush closed it reads them afterwards)
+	_, dpf, err := ParseFile(repo, "tsdb/memdb/data_point_buffer.go")
+	if err != nil {
+		return "", err
+	}
+	var gpStmts, relStmts []string
+	if fd := FindFunc(dpf, "dataPointBuffer", "GetPage"); fd != nil && fd.Body != nil {
+		gpStmts = c11FlatStmts(fd.Body.List)
+	}
+	if fd := FindFunc(dpf, "dataPointBuffer", "Release"); fd != nil && fd.Body != nil {
+		relStmts = c11FlatStmts(fd.Body.List)
+	}
+	keeps := len(gpStmts) > 0
+	for _, st := range gpStmts {
+		if strings.Contains(st, "dirty") || strings.Contains(st, "IsDirty") {
+			keeps = false
+		}
+	}
+	sb.WriteString("def getPageStmts : List String := " + LeanStrList(gpStmts) + "\n")
+	sb.WriteString("def bufferReleaseStmts : List String := " + LeanStrList(relStmts) + "\n")
+	fmt.Fprintf(&sb, "def releasedBufferKeepsPages : Bool := %v\n", keeps)
+	_, mdf, err := ParseFile(repo, "tsdb/memdb/database.go")
+	if err != nil {
+		return "", err
+	}
+	var closeCalls []string
+	if fd := FindFunc(mdf, "memoryDatabase", "Close"); fd != nil {
+		closeCalls = c11CallSeq(fd)
+	}
+	sb.WriteString("def memdbCloseCalls : List String := " + LeanStrList(closeCalls) + "\n")
 	return sb.String(), nil
+}
+
+// c11FlatStmts lists the statements of a body in source order, one line each; an if / for / range
+// statement contributes its header, its body's statements and a closing brace (else branches too).
+func c11FlatStmts(list []ast.Stmt) []string {
+	var out []string
+	for _, st := range list {
+		switch x := st.(type) {
+		case *ast.IfStmt:
+			out = append(out, "if "+c11OneLine(c11Text(x.Cond))+" {")
+			out = append(out, c11FlatStmts(x.Body.List)...)
+			if x.Else != nil {
+				out = append(out, "} else {")
+				if b, ok := x.Else.(*ast.BlockStmt); ok {
+					out = append(out, c11FlatStmts(b.List)...)
+				} else {
+					out = append(out, c11FlatStmts([]ast.Stmt{x.Else})...)
+				}
+			}
+			out = append(out, "}")
+		case *ast.ForStmt:
+			h := "for "
+			if x.Init != nil {
+				h += c11OneLine(c11Text(x.Init)) + "; "
+			}
+			if x.Cond != nil {
+				h += c11OneLine(c11Text(x.Cond))
+			}
+			if x.Post != nil {
+				h += "; " + c11OneLine(c11Text(x.Post))
+			}
+			out = append(out, h+" {")
+			out = append(out, c11FlatStmts(x.Body.List)...)
+			out = append(out, "}")
+		case *ast.RangeStmt:
+			out = append(out, "range "+c11OneLine(c11Text(x.X))+" {")
+			out = append(out, c11FlatStmts(x.Body.List)...)
+			out = append(out, "}")
+		case *ast.ExprStmt:
+			if strings.HasPrefix(c11Text(x), "verifhook.Yield") {
+				continue
+			}
+			out = append(out, c11OneLine(c11Text(st)))
+		default:
+			out = append(out, c11OneLine(c11Text(st)))
+		}
+	}
+	return out
 }
 
 // c11OneLine joins a multi-line statement text into one line.
